@@ -138,26 +138,24 @@ Section Scan.
   Qed.
 
   (* inside any compiled set, the condition of a rule has the value it has on
-     the rule's own terms (documented meaning, i.e. without the model of the
-     `N of` fast path) *)
+     the rule's own terms *)
   Lemma value_in_own : forall rules k r,
     nth_error rules k = Some r ->
-    value_in M data globals others false rules k = own_value M data globals others false r.
+    value_in M data globals others rules k = own_value M data globals others r.
   Proof.
     intros rules k r Hk. unfold value_in, own_value.
     pose proof (matches_in_own rules k r) as MI. unfold matches_in in MI.
     destruct (compile_set rules) as [idss tbl] eqn:C. rewrite Hk.
     apply id_renaming_invariance. constructor; cbn; try reflexivity.
-    - split; reflexivity.
-    - intros i. exact (MI i Hk).
+    intros i. exact (MI i Hk).
   Qed.
 
   (* C07: verdict and reported matches of a rule do not depend on the rules
      compiled before or after it, however many of its patterns they share.
      [others] are the verdicts of the rules it refers to. *)
   Theorem independence : forall S1 r S2,
-    verdict_in M data globals others false (S1 ++ r :: S2) (length S1)
-    = verdict_in M data globals others false [r] 0 /\
+    verdict_in M data globals others (S1 ++ r :: S2) (length S1)
+    = verdict_in M data globals others [r] 0 /\
     forall i, matches_in M data (S1 ++ r :: S2) (length S1) i = matches_in M data [r] 0 i.
   Proof.
     intros S1 r S2.
@@ -178,19 +176,16 @@ Example independence_example :
   let r := mkCRule [a; b] (EAnd (EPat (PId 0) ANone (EInt 0) (EInt 0)) (ENot (EPat (PId 1) ANone (EInt 0) (EInt 0)))) in
   let S1 := [mkCRule [b; ([100]%Z, 0%nat)] (EBool true)] in
   compile_set (S1 ++ [r]) = ([[0; 1]; [2; 0]]%nat, [b; ([100]%Z, 0%nat); a]) /\
-  verdict_in M [97; 98]%Z (fun _ => VUndef) (fun _ => false) false (S1 ++ [r]) 1 = true.
+  verdict_in M [97; 98]%Z (fun _ => VUndef) (fun _ => false) (S1 ++ [r]) 1 = true.
 Proof. vm_compute. split; reflexivity. Qed.
 
-(* With the model of the implementation's `N of` fast path the theorem is
-   false (finding 6): `0 of ($a, $b)` is true alone (ids 0, 1: one run) and
-   false after a rule that declares $b and another pattern (ids 2, 0). *)
-Theorem independence_fast_refuted :
-  exists M data S1 r,
-    verdict_in M data (fun _ => VUndef) (fun _ => false) true (S1 ++ [r]) (length S1)
-    <> verdict_in M data (fun _ => VUndef) (fun _ => false) true [r] 0.
-Proof.
-  exists (fun (p : pident) d => find_all (fst p) d), [97; 98]%Z.
-  exists [mkCRule [([99]%Z, 0%nat); ([100]%Z, 0%nat)] (EBool true)].
-  exists (mkCRule [([97; 98]%Z, 0%nat); ([99]%Z, 0%nat)] (EOf QExpr (EInt 0) [0; 1]%nat ANone (EInt 0) (EInt 0))).
-  vm_compute. discriminate.
-Qed.
+(* the former witness of finding 6 (`0 of ($a, $b)` alone, ids 0 and 1, and
+   after a rule that declares $b and another pattern, ids 2 and 0): false in
+   both compilations since `0 of` means none whatever the ids are *)
+Example independence_zero_of :
+  let M := fun (p : pident) d => find_all (fst p) d in
+  let S1 := [mkCRule [([99]%Z, 0%nat); ([100]%Z, 0%nat)] (EBool true)] in
+  let r := mkCRule [([97; 98]%Z, 0%nat); ([99]%Z, 0%nat)] (EOf QExpr (EInt 0) [0; 1]%nat ANone (EInt 0) (EInt 0)) in
+  verdict_in M [97; 98]%Z (fun _ => VUndef) (fun _ => false) (S1 ++ [r]) 1 = false /\
+  verdict_in M [97; 98]%Z (fun _ => VUndef) (fun _ => false) [r] 0 = false.
+Proof. vm_compute. split; reflexivity. Qed.
